@@ -142,25 +142,61 @@ fn store_cleanup_removes_only_expired() {
         let now_s = SystemTime::now().duration_since(UNIX_EPOCH).unwrap().as_secs();
         let mut script = Vec::new();
         let mut model: std::collections::HashMap<u64, (u64, Time)> = Default::default();
+        let mut charged: std::collections::HashMap<u64, i64> = Default::default(); // what the policy was told to charge per key (0, 1 or 2)
         let nkeys = 2 + rng.below(5);
+        // conflict hash of the key that owns each index (two user keys, conflict 1 and 2, share every index): writes and removes
+        // made on behalf of the other key are refused by the store; a clear() leaves the old owner's listings behind
+        let mut owner: std::collections::HashMap<u64, u64> = Default::default();
+        let collide = rng.below(3) == 0;
         for _ in 0..(2 + rng.below(8)) {
             let k = rng.below(nkeys);
-            match rng.below(8) {
-                0 => { s.clear(); p.clear(); model.clear(); script.push("store.clear(); policy.clear()".to_string()); }
-                1 => { if s.try_remove(&k, 0).unwrap().is_some() { p.remove(&k); } model.remove(&k); script.push(format!("try_remove({})", k)); }
+            let conf = if collide { 1 + rng.below(2) } else { 0 };
+            let mine = owner.get(&k).map_or(true, |o| *o == conf || conf == 0);
+            match rng.below(10) {
+                8 | 9 => {
+                    // lookups: hit iff the entry is there and its TTL (if any) has not elapsed; a lookup never changes what is resident
+                    let mutable = rng.below(2) == 0;
+                    let len0 = s.len();
+                    let res0 = s.expiration(&k).is_some();
+                    let got = if mutable { s.get_mut(&k, 0).map(|v| *v.value()) } else { s.get(&k, 0).map(|v| *v.value()) };
+                    script.push(format!("{}({})", if mutable { "get_mut" } else { "get" }, k));
+                    let want = model.get(&k).and_then(|(v, tm)| if !tm.is_zero() && tm.is_expired() { None } else { Some(*v) });
+                    if got != want {
+                        fail("store_cleanup_removes_only_expired", "C02,C03:store.get.hit-iff", &["C02", "C03", "C09"], if mutable { "ShardedMap::get_mut" } else { "ShardedMap::get" }, script.join("; "),
+                            format!("{:?}", got), format!("{:?}", want));
+                        return;
+                    }
+                    if s.len() != len0 || s.expiration(&k).is_some() != res0 {
+                        fail("store_cleanup_removes_only_expired", "C06,C02:store.lookup.frame", &["C06", "C02", "C03", "C08"], if mutable { "ShardedMap::get_mut" } else { "ShardedMap::get" }, script.join("; "),
+                            format!("len {} -> {}, key {} resident {} -> {}", len0, s.len(), k, res0, s.expiration(&k).is_some()), "a lookup leaves the set of resident entries alone (expired entries are reclaimed by the sweep, which also releases the charge)".into());
+                        return;
+                    }
+                }
+                0 => { s.clear(); p.clear(); model.clear(); owner.clear(); script.push("store.clear(); policy.clear()".to_string()); }
+                1 => { if s.try_remove(&k, conf).unwrap().is_some() { p.remove(&k); } if mine { model.remove(&k); owner.remove(&k); } script.push(format!("try_remove({}, conflict {})", k, conf)); }
                 _ => {
                     // created 5..20 s ago; ttl: none, already elapsed, or still running
                     let age = 5 + rng.below(15);
-                    let ttl_ms = match rng.below(3) { 0 => 0, 1 => 1000 * (1 + rng.below(age - 2)), _ => 1000 * (age + 5 + rng.below(100)) };
+                    // (the 4th kind ends within the current second: possibly elapsed although its bucket is not due yet)
+                    let ttl_ms = match rng.below(if collide { 4 } else { 3 }) { 0 => 0, 1 => 1000 * (1 + rng.below(age - 2)), 2 => 1000 * (age + 5 + rng.below(100)), _ => 1000 * age };
                     let tm = t(now_s - age, (rng.below(1000) * 1_000_000) as u32, ttl_ms);
                     let v = rng.below(1000);
+                    if !mine {
+                        // a write of the colliding key: the slot belongs to the other key, nothing may change
+                        let _ = s.try_update(k, v, conf, tm).unwrap();
+                        script.push(format!("try_update(k={}, conflict {} [slot owned by conflict {}], ttl={}ms, created {}s ago)", k, conf, owner[&k], ttl_ms, age));
+                        continue;
+                    }
                     if model.contains_key(&k) {
-                        let _ = s.try_update(k, v, 0, tm).unwrap();
-                        script.push(format!("try_update(k={}, ttl={}ms, created {}s ago)", k, ttl_ms, age));
+                        let _ = s.try_update(k, v, conf, tm).unwrap();
+                        script.push(format!("try_update(k={}, conflict {}, ttl={}ms, created {}s ago)", k, conf, ttl_ms, age));
                     } else {
-                        s.try_insert(k, v, 0, tm).unwrap();
-                        p.add(k, 1);
-                        script.push(format!("try_insert(k={}, ttl={}ms, created {}s ago)", k, ttl_ms, age));
+                        s.try_insert(k, v, conf, tm).unwrap();
+                        owner.insert(k, conf);
+                        let c = rng.below(3) as i64;
+                        p.add(k, c);
+                        charged.insert(k, c);
+                        script.push(format!("try_insert(k={}, conflict {}, ttl={}ms, created {}s ago); policy.add({}, cost {})", k, conf, ttl_ms, age, k, c));
                     }
                     model.insert(k, (v, tm));
                 }
@@ -189,7 +225,7 @@ fn store_cleanup_removes_only_expired() {
                     return;
                 }
                 if p.contains(k) {
-                    fail("store_cleanup_removes_only_expired", "C06:cleanup.charge-released", &["C06", "C05"], "ShardedMap::try_cleanup", script.join("; "), format!("key {} still charged", k), "charge released".into());
+                    fail("store_cleanup_removes_only_expired", "C06:cleanup.charge-released", &["C06", "C05", "C04"], "ShardedMap::try_cleanup", script.join("; "), format!("key {} still charged", k), "charge released".into());
                     return;
                 }
             } else if !p.contains(k) {
@@ -198,9 +234,9 @@ fn store_cleanup_removes_only_expired() {
             }
         }
         for it in &removed {
-            if it.cost != 1 || it.val != model.get(&it.index).map(|x| x.0) {
+            if Some(&it.cost) != charged.get(&it.index) || it.val != model.get(&it.index).map(|x| x.0) {
                 fail("store_cleanup_removes_only_expired", "C05,C08,C16:cleanup.handed-out", &["C05", "C08", "C16"], "ShardedMap::try_cleanup", script.join("; "),
-                    format!("item {} val {:?} cost {}", it.index, it.val, it.cost), format!("val {:?} cost 1", model.get(&it.index).map(|x| x.0)));
+                    format!("item {} val {:?} cost {}", it.index, it.val, it.cost), format!("val {:?} cost {:?}", model.get(&it.index).map(|x| x.0), charged.get(&it.index)));
                 return;
             }
         }
